@@ -68,6 +68,17 @@ impl MerkleTree {
             return None;
         }
 
+        // a placeholder expands into as many leaves as it claims to replace. the claim comes
+        // from whoever sent the block: refuse to build a tree that is out of proportion to the
+        // transactions actually carried
+        let total_leaves: u64 = transactions
+            .iter()
+            .map(|tx| std::cmp::max(tx.txs_replacements, 1) as u64)
+            .sum();
+        if total_leaves > 2 * transactions.len() as u64 + 64 {
+            return None;
+        }
+
         let mut leaves: LinkedList<Box<MerkleTreeNode>> = LinkedList::new();
 
         // Create leaves for the Merkle tree
